@@ -27,7 +27,7 @@ META = {
     'note': 'Trusted: Coq 8.16.1 kernel (vm_compute only for the closed constant checks), no axioms; tools/s2c/safety.py (regex '
             'translation of the qualifier list, operator characters, look-behind numbers, alignment characters, typeLetters, '
             'Pretty size constants and default limit, configure()\'s chain and colour-code expression); extraction (ExtrOcamlBasic) and ocaml/drv_cleanup.ml, drv_safety.ml; harness/h_safety.cpp; '
-            'g++ ASan/UBSan. Modelled, not verified: QByteArray/QString primitives (indexOf, lastIndexOf, replace, trimmed, '
+            'g++ ASan/UBSan and, for the regular-expression filter, a PROT_NONE guard page right behind the subject text (PCRE\'s JIT-compiled matcher is not sanitizer-instrumented). Modelled, not verified: QByteArray/QString primitives (indexOf, lastIndexOf, replace, trimmed, '
             'toInt, number), UTF-8 decoding of file/category (ASCII only in the diffed inputs). Outside any model: PCRE2, '
             'QRegularExpression, QJsonDocument, QDateTime, Qt allocation, JsonFormatter/SentryFormatter/CategoryFilter/'
             'RegExpFilter internals (sanitizer + time budget only); the colour-code remover of configure() is a QRegularExpression - '
